@@ -23,8 +23,8 @@ SCEN = {
     "trio_mc":    ("Addr3", "GapsFixed3", 0, 4, 0),          # thorough model check only
     # mixed histories from a running three-node cluster (a1 observes): a silent crash and a clean unregister of DIFFERENT peers in either
     # order and at any distance, every tick and every delivery order replayed up to and past each entry's deadline
-    "mix_q":      ("Addr3", "GapsFixed3", 0, 2, 0, "BootABC", "OnlyC", "OnlyB", "FALSE"),    # quick walk + quick timed model check: c1 crashes, b1 unregisters
-    "mix_t":      ("Addr3", "GapsFixed3", 0, 2, 0, "BootABC", "SetBC", "SetBC", "FALSE"),    # thorough walk: b1/c1 crash or unregister (two crashes, two unregisters, crash+unregister of either)
+    "mix_q":      ("Addr3", "GapsFixed3", 0, 2, 0, "BootABC", "OnlyC", "OnlyB", "TRUE"),     # quick walk + quick timed model check: c1 crashes, b1 unregisters
+    "mix_t":      ("Addr3", "GapsFixed3", 0, 2, 0, "BootABC", "AllNodes", "AllNodes", "TRUE"),  # thorough walk: any two of the three crash or unregister
     "mix_mc":     ("Addr3", "GapsFixed3", 0, 3, 0, "BootABC", "AllNodes", "AllNodes", "FALSE"),  # thorough model check only: anybody leaves, three events (incl. the whole cluster)
     # rolling restart while a crashed peer's entry is ageing: c1 crashes, b1 unregisters, b2 joins on b1's address and unregisters again
     "roll":       ("AddrRoll", "GapsRoll4", 0, 4, 0, "BootABC", "OnlyC", "SetB", "TRUE"),     # thorough walk
@@ -32,12 +32,15 @@ SCEN = {
 }
 
 
+AGE = ("pair_q", "mix_q", "mix_mc", "roll_mc")   # timed configurations that also carry the per-node clocks (PeerForgotten / PeerLearnt)
+
+
 def consts(s, closed, cb, quiet, backoff="FALSE", extra="none"):
     a, g, d, e, f = SCEN[s][:5]
     boot, crash, stop, sync = SCEN[s][5:] or ("NoNodes", "AllNodes", "AllNodes", "FALSE")
     return ("CONSTANTS\n  Addr <- %s\n  Gaps <- %s\n  T = 10\n  D = %d\n  MaxEvents = %d\n  MaxFails = %d\n  Extra = \"%s\"\n  Backoff = %s\n  Closed = %s\n  ObserveCb = %s\n  TrackQuiet = %s\n  UnitMs = 1000\n"
-            "  Boot <- %s\n  CrashSet <- %s\n  StopSet <- %s\n  Sync = %s\n"
-            % (a, g, d, e, f, extra, backoff, closed, cb, quiet, boot, crash, stop, sync))
+            "  Boot <- %s\n  CrashSet <- %s\n  StopSet <- %s\n  Sync = %s\n  TrackAge = %s\n"
+            % (a, g, d, e, f, extra, backoff, closed, cb, quiet, boot, crash, stop, sync, "TRUE" if quiet == "TRUE" and s in AGE and backoff == "FALSE" else "FALSE"))
 
 
 def write(name, text):
